@@ -365,3 +365,118 @@ def _widened_by_parser(prog, owner_field, child_field):
         return f'every parser construction widens it with Location::union first ({where})'
     return None
 
+
+
+# ---------------------------------------------------------------------------------------------------------------------
+# RENAME-RELEVANCE (C15): the renamer rewrites a `LocalId` occurrence unconditionally; what keeps it from renaming an
+# unrelated variable is that it only gets to an expression after testing that the expression's range contains the definition
+# or one of the uses. A function that performs the unconditional rewrite without testing its own argument (an *unguarded*
+# renamer) may be handed
+#   - the caller's own expression, when the caller has tested it, or
+#   - a child of a node with exactly one sub-expression and no binder of its own (the node is relevant iff the child is);
+# a child of a node that owns binders (lambda parameters, patterns) or has several sub-expressions can be irrelevant while
+# the node is relevant, so it needs its own test.
+
+def run_rename_relevance(prog, tier, repo):
+    from ..dataflow import root_local
+    res = RuleResult('RENAME-RELEVANCE', 'C15: the unconditional rewrite of a variable occurrence is only reached for expressions whose '
+                     'range was tested to contain the definition or a use (or the single child of a binder-free node that was)')
+    E = 'samlang_ast::source::expr::E'
+    mod = 'samlang_services::variable_definition::'
+    bodies = {i: b for i, b in prog.bodies.items() if b.name.startswith(mod) and '::tests' not in b.name and b.kind != 'closure'}
+    if not bodies:
+        res.cannot_decide('samlang_services::variable_definition')
+        return [res]
+
+    def is_e(t):
+        t = strip_refs(t)
+        while t.k == 'adt' and t.name.startswith('std::boxed::Box') and t.args:
+            t = strip_refs(t.args[0])
+        return t.k == 'adt' and t.name == E
+    # the relevance test: (&Location, &DefinitionAndUses) -> Vec<Location>
+    tests = {i for i, b in bodies.items() if b.nargs == 2 and strip_refs(b.locals[1]).s.endswith('Location')
+             and 'DefinitionAndUses' in strip_refs(b.locals[2]).s}
+    if len(tests) != 1:
+        res.cannot_decide(f'the range test of the renamer (found {len(tests)})')
+        return [res]
+
+    def tested_exprs(b):
+        """[(block, root, path)] expressions whose loc() is handed to the relevance test"""
+        out = []
+        for bi, bl in enumerate(b.blocks):
+            t = bl.term
+            if bl.cleanup or t[0] != 'call' or callee(t)[0] not in tests or not t[3]:
+                continue
+            r, _ = operand_root(b, t[3][0])
+            sd = single_def(b, r) if r is not None else None
+            if sd and sd[1] == 'term' and (callee(sd[2])[1] or '').split('::')[-1] in ('loc', 'location') and sd[2][3]:
+                out.append((bi, operand_root(b, sd[2][3][0])))
+        return out
+    # unconditional rewrite sites: construction of E::LocalId
+    eadt = [a for a in prog.adts.values() if a.name == E]
+    if len(eadt) != 1:
+        res.cannot_decide(E)
+        return [res]
+    eadt = eadt[0]
+    unguarded = {}
+    n = 0
+    for i, b in sorted(bodies.items(), key=lambda kv: kv[1].name):
+        eps = [k for k in range(1, b.nargs + 1) if is_e(b.locals[k])]
+        if not eps:
+            continue
+        sites = [bi for bi, bl in enumerate(b.blocks) if not bl.cleanup for st in bl.stmts
+                 if st[0] == 'a' and st[2][0] == 'agg' and st[2][1][0] == 'adt' and st[2][1][1] == eadt.id and st[2][1][3] == 'LocalId']
+        if not sites:
+            continue
+        cfg = cfg_of(b)
+        te = tested_exprs(b)
+        for p in eps:
+            tb = [bi for bi, (r, path) in te if r == p and not any(e[0] in ('f', 'v', 't') for e in path)]
+            n += 1
+            if tb and all(cfg.nodes_dominate(tb, s) for s in sites):
+                res.ok(f'rewrite:{b.name}', b.loc(), 'the occurrence rewrite is behind a range test of the function\'s own argument')
+            else:
+                unguarded[i] = p
+    for i, p in unguarded.items():
+        g = bodies[i]
+        called = False
+        for hid, h in sorted(bodies.items(), key=lambda kv: kv[1].name):
+            cfg = cfg_of(h)
+            te = tested_exprs(h)
+            for bi, bl in enumerate(h.blocks):
+                t = bl.term
+                if bl.cleanup or t[0] != 'call' or callee(t)[0] != i or len(t[3]) < p:
+                    continue
+                called = True
+                r, path = operand_root(h, t[3][p - 1])
+                k = sum(1 for x in res.instances if x.key.startswith(f'handover:{h.name}->{g.name}#')) + 1
+                key = f'handover:{h.name}->{g.name}#{k}'
+                same = [tb for tb, (r2, p2) in te if (r2, tuple(p2)) == (r, tuple(path))]
+                if same and cfg.nodes_dominate(same, bi):
+                    res.ok(key, h.loc(t[7]), 'the expression handed over was range-tested')
+                    continue
+                fs = [e for e in path if e[0] == 'f']
+                node = None
+                for e in fs:
+                    a = prog.adts.get(e[1])
+                    if a is not None and a.name.startswith('samlang_ast::source::expr::') and a.kind == 'struct':
+                        node = a
+                if node is not None:
+                    kids = [f for f in node.variants[0].fields if is_e(f.ty) or 'expr::E<' in f.ty.s or 'ParenthesizedExpressionList' in f.ty.s
+                            or 'Block<' in f.ty.s or 'IfElse' in f.ty.s]
+                    binders = [f for f in node.variants[0].fields if any(x in f.ty.s for x in ('OptionallyAnnotatedId', 'pattern::', 'AnnotatedId',
+                                                                                              'LambdaParameters', 'VariantPatternToExpression', 'DeclarationStatement'))]
+                    if len(kids) == 1 and not binders:
+                        res.ok(key, h.loc(t[7]), f'single sub-expression of a binder-free {node.name.split("::")[-1]} node')
+                        continue
+                    why = (f'a {node.name.split("::")[-1]} node ' + ('that owns binders' if binders else f'with {len(kids)} sub-expressions'))
+                else:
+                    why = 'an expression that was not range-tested'
+                res.violation(key, h.loc(t[7]), f'{h.name} hands a child of {why} to {g.name}, which rewrites variable occurrences '
+                              f'without testing that its argument\'s range contains the definition or a use: the node can be relevant '
+                              f'because of its own binder or another child, so an unrelated variable in this child is renamed '
+                              f'(`(ignored: int) -> fallback` becomes `(unused: int) -> unused`)')
+        if not called:
+            res.violation(f'rewrite:{g.name}', g.loc(), f'{g.name} rewrites variable occurrences without a range test and nobody calling it could be checked')
+    res.floor('functions rewriting variable occurrences', n, 1)
+    return [res]
